@@ -151,7 +151,7 @@ CHECKS = {
              "patch's commit on the walked path) changes nothing but the log - lists, every patch's commit, head, branch, "
              "index, work tree, patch refs - for every world whose store is acyclic and for every world reachable by "
              "commands (C13_repair_consistent_noop, _reachable); the age invariant of the store is proved for every command "
-             "(C13_plain_parents_older_invariant); a second repair changes nothing (partial: its success is a premise); "
+             "(C13_plain_parents_older_invariant); repair is idempotent: a second run succeeds and changes nothing (C13_repair_idempotent, _reachable); "
              "the first form without the age condition is refuted. "
              "Theorems: repair_appliedness is a permutation; repair never touches index/work tree; on a consistent "
              "stack the first-parent walk finds exactly the applied patches; walked names are patches, patchified "
